@@ -1312,6 +1312,8 @@ class Interp(object):
         return None
 
     def st_Import(self, s, frame):
+        for a in s.names:
+            frame.locals[a.asname or a.name.split('.')[0]] = ModRef(a.name)
         return None
 
     def st_ImportFrom(self, s, frame):
@@ -1334,6 +1336,9 @@ class Interp(object):
     def st_AugAssign(self, s, frame):
         cur = self.ev(_as_load(s.target), frame)
         r = self.ev(s.value, frame)
+        if isinstance(cur, Native) and hasattr(cur, 'aug_assign'):
+            cur.aug_assign(type(s.op), r, self, frame, s)
+            return None
         if isinstance(cur, list) and isinstance(s.op, ast.Add) and isinstance(r, (list, tuple)):
             for x in r:
                 if len(cur) < self.LIST_CAP:
@@ -1487,7 +1492,10 @@ class Interp(object):
         elif isinstance(t, ast.Subscript):
             base = self.ev(t.value, frame)
             if isinstance(t.slice, ast.Slice):
-                idx = ('slice',)
+                idx = ('slice',
+                       self.ev(t.slice.lower, frame) if t.slice.lower is not None else None,
+                       self.ev(t.slice.upper, frame) if t.slice.upper is not None else None,
+                       self.ev(t.slice.step, frame) if t.slice.step is not None else None)
             else:
                 idx = self.ev(t.slice, frame)
             if self.on_store_subscript(base, idx, v, node, frame):
